@@ -210,7 +210,18 @@ var importers = []importerSpec{
 				} else {
 					in = amt2(r.Amt)
 				}
-				recs = append(recs, []string{dayToTime(r.Z).Format("2 Jan 2006"), r.Text, out, in, "", "", amt2(r.Bal), " ", "General"})
+				xo, xi, rate := "", "", " "
+				if abs(r.Amt)%4 == 1 {
+					// a card payment (or refund) in a foreign currency: the export also shows the foreign amount and the
+					// rate; it is an ordinary row, not a conversion between the holder's own balances
+					if r.Amt < 0 {
+						xo = "GBP  " + amt2(-r.Amt*8/10)
+					} else {
+						xi = "GBP  " + amt2(r.Amt*8/10)
+					}
+					rate = "FX-rate CHF 1 = GBP 0.8000"
+				}
+				recs = append(recs, []string{dayToTime(r.Z).Format("2 Jan 2006"), r.Text, out, in, xo, xi, amt2(r.Bal), rate, "General"})
 			}
 			return csvBytes(';', recs)
 		}},
